@@ -139,6 +139,7 @@ type w13Gen struct {
 	hasAdm bool
 	focus  bool // most commands of the case address one key (value operations meet each other's state)
 	timers bool // timer variant: time-outs / expiries of milliseconds to 1 s and a pause before the probe
+	writer bool // writer connection of the writer->reader shape: value frames lean towards stored values with property blocks
 }
 
 // with returns a copy of the generator that draws from t (used inside rapid.Custom, which gives
@@ -358,7 +359,55 @@ func (g *w13Gen) genValueFrameIn(depth int, db byte, embedded bool) ([]byte, str
 	body = append(body, stage<<6|typ, flags)
 	// property header
 	propLies := !(g.known.valueOffset || g.known.propWalk)
-	if g.pct("vfProps", 25) {
+	propPct, tightPct := 25, 35
+	if g.writer {
+		propPct, tightPct = 75, 65
+	}
+	tight := false
+	if g.pct("vfProps", propPct) && propLies && g.pct("vfPropTight", tightPct) {
+		// A property block that is exact except for one entry whose length is off by -3..+3 relative to
+		// what is left of the block behind its 3-byte entry header, with the block ending exactly at /
+		// 1..3 bytes before the end of the frame (the payload switch below keeps the payload that short):
+		// the readers of stored values (KEYS, SCAN look up KEY = 1) walk this block on other connections.
+		tight = true
+		flags |= 0x10
+		if g.pct("vfTightStored", 70) {
+			typ, stage = byte(rapid.SampledFrom([]int{0, 0, 0, 3, 7}).Draw(g.t, "vfTightType")), 0
+			flags &^= 0x06 // plain payload, so that it can be kept to 0..3 bytes
+			desc = []string{w13DataTypeName(typ)}
+		}
+		body[0], body[1] = stage<<6|typ, flags
+		np := g.n("vfTightCount", 1, 3)
+		codes := make([]byte, np)
+		vals := make([][]byte, np)
+		total := 0
+		for i := range codes {
+			codes[i] = byte(rapid.SampledFrom([]int{1, 1, 1, 0, 2, 3}).Draw(g.t, "vfTightCode"))
+			vals[i] = g.raw("vfTightVal", g.n("vfTightLen", 0, 6))
+			total += 3 + len(vals[i])
+		}
+		lieAt := g.n("vfTightLieAt", 0, np-1)
+		delta := rapid.SampledFrom([]int{1, 2, 3, -1, -2, -3}).Draw(g.t, "vfTightDelta")
+		var props []byte
+		off := 0
+		for i := range codes {
+			vl := len(vals[i])
+			if i == lieAt {
+				if rem := total - off - 3 + delta; rem >= 0 { // relative to everything that is left of the block
+					vl = rem
+				}
+				if g.pct("vfTightOwn", 50) && len(vals[i])+delta >= 0 { // relative to the entry's own value
+					vl = len(vals[i]) + delta
+				}
+			}
+			props = append(props, codes[i], byte(vl), byte(vl>>8))
+			props = append(props, vals[i]...)
+			off += 3 + len(vals[i])
+		}
+		body = append(body, byte(total), byte(total>>8))
+		body = append(body, props...)
+		desc = append(desc, fmt.Sprintf("props=tight %d entries codes=%v lie@%d %+d", np, codes, lieAt, delta))
+	} else if g.pct("vfPropsLoose", propPct) {
 		flags |= 0x10
 		body[1] = flags
 		var props []byte
@@ -464,7 +513,9 @@ func (g *w13Gen) genValueFrameIn(depth int, db byte, embedded bool) ([]byte, str
 			}
 		} else {
 			l := g.n("vfPayloadLen", 0, 24)
-			if g.pct("vfPayloadBig", 6) {
+			if tight {
+				l = g.n("vfTightTail", 0, 3)
+			} else if g.pct("vfPayloadBig", 6) {
 				l = rapid.SampledFrom([]int{58, 59, 60, 62, 63, 64, 65, 127, 128, 1000, 1018, 1024, 4090, 4096, 5000}).Draw(g.t, "vfPayloadBigLen")
 			} else if g.pct("vfPayloadHuge", 1) {
 				l = rapid.SampledFrom([]int{65536, 200000, 1048570, 1048574}).Draw(g.t, "vfPayloadHugeLen")
@@ -1327,6 +1378,169 @@ func w13GenConn(g *w13Gen) w13Conn {
 	return c
 }
 
+// ---------------------------------------------------------------------------------------------
+// case shape "writer -> reader": the first connection leaves a value on a key that stays held, the
+// second one, speaking the other protocol, reads stored values back (KEYS, SCAN, GET, STRLEN, TYPE, DUMP,
+// TTL, SHOW, LOCK results with DATA / CALL LIST_*, STATE, show-when-locked LOCK, value updates). Values
+// are decoded a second time, by different code, on a connection that sent nothing malformed itself.
+
+func (g *w13Gen) writerLockFrame(first bool, id [16]byte) ([]byte, string) {
+	f := make([]byte, 64)
+	f[0], f[1], f[2] = protocol.MAGIC, protocol.VERSION, protocol.COMMAND_LOCK
+	copy(f[3:19], g.raw("wfReq", 16))
+	flag := byte(0x20)
+	if !first || g.pct("wfUpdate", 30) {
+		flag |= 0x02
+	}
+	f[19], f[20] = flag, 0
+	copy(f[21:37], id[:])
+	copy(f[37:53], g.keys[0][:])
+	expried := uint16(rapid.SampledFrom([]int{30, 60, 600, 0x7fff}).Draw(g.t, "wfExpried"))
+	eflag := uint16(rapid.SampledFrom([]int{0, 0x0100, 0x4100, 0x2100}).Draw(g.t, "wfExpriedFlag"))
+	count := uint16(rapid.SampledFrom([]int{0, 0, 5}).Draw(g.t, "wfCount"))
+	f[57], f[58], f[59], f[60] = byte(expried), byte(expried>>8), byte(eflag), byte(eflag>>8)
+	f[61], f[62] = byte(count), byte(count>>8)
+	vf, vd := g.genValueFrameIn(1, 0, false)
+	return append(f, vf...), fmt.Sprintf("LOCK flag=%#x db=0 key=%x id=%x t=0 e=%d/%#x c=%d %s", flag, g.keys[0][14:], id[14:], expried, eflag, count, vd)
+}
+
+func (g *w13Gen) genWriterConn(binary bool) w13Conn {
+	g.noAdm, g.hasAdm, g.writer = true, false, true
+	defer func() { g.writer = false }()
+	var b []byte
+	var notes []string
+	if binary {
+		id := g.keys[0] // the text key/value commands use the key as lock id
+		if g.pct("wOtherId", 30) {
+			id = g.ids[0]
+		}
+		for i, p := range g.pieces("writerFrames", 1, 2, func(sg *w13Gen) w13Piece {
+			fb, fd := sg.writerLockFrame(false, id)
+			return w13Piece{B: fb, Note: fd}
+		}) {
+			if i == 0 {
+				p.B[19] &^= 0x02 // the first frame takes the hold
+				if g.pct("wFirstUpdate", 30) {
+					p.B[19] |= 0x02
+				}
+			}
+			b = append(b, p.B...)
+			notes = append(notes, p.Note)
+		}
+		c := w13Conn{Kind: "binary", Note: notes, Hex: hex.EncodeToString(b)}
+		c.Chunks = rapid.SampledFrom([][]int{nil, nil, {64}, {64, 7}, {70, 1}, {4096}}).Draw(g.t, "writerChunks")
+		return c
+	}
+	k := g.tkeys[0]
+	pre, pn := g.renderPlain([]string{"TIMEOUT", "SET", "0"})
+	b, notes = append(b, pre...), append(notes, pn)
+	for _, p := range g.pieces("writerCommands", 1, 3, func(sg *w13Gen) w13Piece {
+		var a []string
+		switch sg.n("writerCmd", 0, 7) {
+		case 0, 1:
+			a = []string{"SET", k, sg.tval("wv")}
+		case 2:
+			a = []string{"SETEX", k, "60", sg.tval("wv")}
+		case 3:
+			a = []string{"APPEND", k, sg.tval("wv")}
+		case 4:
+			a = []string{"INCR", k}
+		case 5:
+			a = []string{"LOCK", k, "LOCK_ID", k, "SET", sg.tval("wv"), "EXPRIED", "60", "TIMEOUT", "0"}
+		case 6:
+			a = []string{"LOCK", k, "LOCK_ID", k, "PUSH", sg.tval("wv"), "EXPRIED", "60", "COUNT", "5", "TIMEOUT", "0"}
+		case 7:
+			a = []string{"PUSH", k, "LOCK_ID", k, "FLAG", "2", "APPEND", sg.tval("wv"), "EXPRIED", "60", "TIMEOUT", "0"}
+		}
+		rb, rn := sg.renderPlain(sg.knownTextFilter(a))
+		return w13Piece{B: rb, Note: rn}
+	}) {
+		b, notes = append(b, p.B...), append(notes, p.Note)
+	}
+	c := w13Conn{Kind: "text", Note: notes, Hex: hex.EncodeToString(b)}
+	c.Chunks = g.genChunks(len(b), false)
+	return c
+}
+
+func (g *w13Gen) genReaderConn(binary bool) w13Conn {
+	g.noAdm, g.hasAdm = true, false
+	var b []byte
+	var notes []string
+	if binary {
+		key := g.keys[0]
+		for _, p := range g.pieces("readerFrames", 2, 7, func(sg *w13Gen) w13Piece {
+			switch sg.n("readerFrame", 0, 9) {
+			case 0, 1, 2:
+				method := rapid.SampledFrom([]string{"LIST_LOCK", "LIST_LOCKED", "LIST_WAIT"}).Draw(sg.t, "readerMethod")
+				var content []byte
+				if method == "LIST_LOCK" {
+					content, _ = proto.Marshal(&protobuf.LockDBListLockRequest{DbId: 0})
+				} else {
+					content, _ = proto.Marshal(&protobuf.LockDBListLockedRequest{DbId: 0, LockKey: key[:]})
+				}
+				f := w13Frame(protocol.COMMAND_CALL, byte(sg.n("readerReq", 1, 255)))
+				w13Put32(f[22:26], uint32(len(content)))
+				copy(f[26:64], method)
+				return w13Piece{B: append(f, content...), Note: "CALL " + method + " db=0 key=focus"}
+			case 3:
+				return w13Piece{B: w13Frame(protocol.COMMAND_STATE, byte(sg.n("readerReq", 1, 255))), Note: "STATE db=0"}
+			case 4, 5:
+				// show-when-locked: the reply carries the holder's terms and the stored value
+				f := w13Frame(protocol.COMMAND_LOCK, byte(sg.n("readerReq", 1, 255)))
+				f[19] = byte(rapid.SampledFrom([]int{0x01, 0x01, 0x03, 0x09}).Draw(sg.t, "readerShowFlag"))
+				copy(f[21:37], sg.ids[1][:])
+				copy(f[37:53], key[:])
+				f[57] = 5
+				return w13Piece{B: f, Note: fmt.Sprintf("LOCK flag=%#x (show) key=focus", f[19])}
+			case 6:
+				// a second holder / a refused lock: the reply carries the stored value as well
+				f := w13Frame(protocol.COMMAND_LOCK, byte(sg.n("readerReq", 1, 255)))
+				copy(f[21:37], sg.ids[1][:])
+				copy(f[37:53], key[:])
+				f[57], f[61] = 5, byte(sg.n("readerCount", 0, 5))
+				return w13Piece{B: f, Note: "LOCK other id key=focus"}
+			}
+			// value operations of the holder on the stored value (update flag), then UNLOCK with data
+			sg.writer = false
+			id := sg.keys[0]
+			if sg.pct("readerOtherId", 30) {
+				id = sg.ids[0]
+			}
+			fb, fd := sg.writerLockFrame(false, id)
+			if sg.pct("readerUnlock", 25) {
+				fb[2] = protocol.COMMAND_UNLOCK
+				fd = "UN" + fd
+			}
+			return w13Piece{B: fb, Note: fd}
+		}) {
+			b, notes = append(b, p.B...), append(notes, p.Note)
+		}
+		c := w13Conn{Kind: "binary", Note: notes, Hex: hex.EncodeToString(b)}
+		c.Chunks = rapid.SampledFrom([][]int{nil, nil, {64}, {64, 7}, {4096}}).Draw(g.t, "readerChunks")
+		return c
+	}
+	k := g.tkeys[0]
+	pre, pn := g.renderPlain([]string{"TIMEOUT", "SET", "0"})
+	b, notes = append(b, pre...), append(notes, pn)
+	readers := [][]string{
+		{"KEYS", "*"}, {"KEYS"}, {"KEYS", "k*"}, {"SCAN", "0"}, {"SCAN", "0", "COUNT", "10"}, {"SCAN", "0", "MATCH", "*"}, {"SCAN", "1", "COUNT", "0"},
+		{"GET", k}, {"STRLEN", k}, {"TYPE", k}, {"DUMP", k}, {"EXISTS", k}, {"TTL", k}, {"PTTL", k},
+		{"SHOW"}, {"SHOW", k}, {"SHOW", k, "WAIT"}, {"INFO", "keyspace"},
+		{"LOCK", k, "TIMEOUT", "0"}, {"LOCK", k, "FLAG", "1", "TIMEOUT", "0"}, {"LOCK", k, "LOCK_ID", k, "FLAG", "2", "APPEND", "x", "TIMEOUT", "0"},
+		{"UNLOCK", k, "LOCK_ID", k, "TIMEOUT", "0"}, {"GETSET", k, "n"}, {"APPEND", k, "y"}, {"INCR", k}, {"DEL", k},
+	}
+	for _, p := range g.pieces("readerCommands", 2, 7, func(sg *w13Gen) w13Piece {
+		a := append([]string{}, rapid.SampledFrom(readers).Draw(sg.t, "readerCmd")...)
+		rb, rn := sg.renderPlain(sg.knownTextFilter(a))
+		return w13Piece{B: rb, Note: rn}
+	}) {
+		b, notes = append(b, p.B...), append(notes, p.Note)
+	}
+	c := w13Conn{Kind: "text", Note: notes, Hex: hex.EncodeToString(b)}
+	c.Chunks = g.genChunks(len(b), false)
+	return c
+}
+
 // w13GenCase draws cases until one passes the domain filter (exclusions are counted).
 func w13GenCase(t *rapid.T, st *vStat) *w13Case { return w13GenCaseVariant(t, st, false) }
 
@@ -1335,8 +1549,24 @@ func w13GenCaseVariant(t *rapid.T, st *vStat, timers bool) *w13Case {
 	c := &w13Case{}
 	g.timers = timers
 	g.focus = g.pct("focusKey", 60) || timers
-	hi := rapid.SampledFrom([]int{1, 1, 1, 1, 1, 1, 1, 2, 2, 3}).Draw(t, "maxConns")
-	conns := rapid.SliceOfN(rapid.Custom(func(t *rapid.T) w13Conn { return w13GenConn(g.with(t)) }), 1, hi).Draw(t, "conns")
+	var conns []w13Conn
+	if g.pct("shapeWriterReader", 30) {
+		// writer (keeps the hold) -> reader on the other protocol (80 %) or the same one, then maybe one more
+		g.focus = true
+		wb := g.pct("writerBinary", 65)
+		rb := !wb
+		if g.pct("readerSameProtocol", 20) {
+			rb = wb
+		}
+		c.Shape = fmt.Sprintf("writer->reader:%s->%s", map[bool]string{true: "binary", false: "text"}[wb], map[bool]string{true: "binary", false: "text"}[rb])
+		conns = append(conns, g.genWriterConn(wb), g.genReaderConn(rb))
+		if g.pct("shapeThird", 20) {
+			conns = append(conns, w13GenConn(g))
+		}
+	} else {
+		hi := rapid.SampledFrom([]int{1, 1, 1, 1, 1, 1, 1, 2, 2, 3}).Draw(t, "maxConns")
+		conns = rapid.SliceOfN(rapid.Custom(func(t *rapid.T) w13Conn { return w13GenConn(g.with(t)) }), 1, hi).Draw(t, "conns")
+	}
 	for _, cn := range conns {
 		if why := g.known.w13RawKnown(cn.bytes()); why != "" {
 			g.exclude(why)
@@ -1417,6 +1647,20 @@ func w13Classes(c *w13Case, info w13Info) (cls []string, nontrivial bool) {
 	}
 	if len(c.Conns) > 1 {
 		add("several connections")
+	}
+	if c.Shape != "" {
+		add("shape " + c.Shape)
+	}
+	for i := 1; i < len(info.Conns) && i < len(c.Conns); i++ {
+		if info.Conns[i-1].HeldValues > 0 && info.Conns[i].Parsed >= 1 {
+			add("a connection ran commands while an earlier connection's value sat on a held key")
+			if info.Conns[i].Proto != info.Conns[i-1].Proto {
+				add("... and it spoke the other protocol")
+			}
+			if info.Conns[i-1].HeldProps > 0 {
+				add("... and the stored value carried a property block")
+			}
+		}
 	}
 	if info.Inconclusive != "" {
 		add("inconclusive: watchdog / harness")
